@@ -710,6 +710,7 @@ func main() {
 	}
 	sort.Strings(oclasses)
 	nreq := len(groups) * len(origins)
+	runConcurrent(r) // two requests in flight on one middleware instance, all interleavings (see concurrent.go)
 	r.Finish(core.Evidence{
 		Level:      "exploration",
 		Exhaustive: true,
